@@ -89,7 +89,7 @@ TOf(e, r) ==
          collReturn |-> [has |-> FALSE, coin |-> Zero, assets |-> <<>>, dh |-> FALSE],
          totalColl |-> [has |-> annotated, v |-> B(IF ~annotated THEN 0 ELSE IF r.plutus = "collShort" THEN 1
                                                    ELSE IF r.plutus = "collAnnot" THEN 4 ELSE 3)],
-         nRef |-> 0, refMissing |-> 0,
+         nRef |-> 0, refMissing |-> 0, withdrawals |-> <<>>,
          needScripts |-> (IF r.ins = "k1s1" THEN <<"pA">> ELSE <<>>) \o (IF pl THEN <<"sP">> ELSE <<>>),
          witScripts |-> (IF r.ins = "k1s1" \/ r.mint # "none" THEN <<"pA">> ELSE <<>>) \o (IF pl THEN <<"sP">> ELSE <<>>),
          refScripts |-> <<>>,
